@@ -456,4 +456,15 @@ def destroyAll (c : Cfg) (w : World) : World :=
 
 def World.init (cd : Option Nat) : World := { cd := cd }
 
+/-- the single object an operation acts on (none for the two-object operations and constructors) -/
+def Op.target : Op → Option Nat
+  | .read i _ | .fit i _ | .writeKey i _ | .removeKey i _ | .getKey i _
+  | .convolve i _ _ | .permute i _ | .writeFits i => some i
+  | _ => none
+
+/-- executable form of the world invariant (decided witnesses, driver self-check) -/
+def World.okB (w : World) : Bool :=
+  w.objs.all (fun o => match o with | none => true | some t => t.ownB && t.balancedB) &&
+  w.retired.all (fun r => r.1.isEmpty && r.2 == 0)
+
 end PsV.Lifecycle
